@@ -70,11 +70,14 @@ class Callback:
 
     def __enter__(self):
         self._cm = add_callbacks(self)
+        # a callback may be entered again while it is already active; keep one
+        # context manager per entry so that every exit undoes its own entry
+        self._cms = getattr(self, "_cms", []) + [self._cm]
         self._cm.__enter__()
         return self
 
     def __exit__(self, *args):
-        self._cm.__exit__(*args)
+        self._cms.pop().__exit__(*args)
 
     def register(self) -> None:
         Callback.active.add(self._callback)
@@ -135,11 +138,14 @@ class add_callbacks:
 
     def __init__(self, *callbacks):
         self.callbacks = [normalize_callback(c) for c in callbacks]
+        # callbacks that an enclosing context or ``register`` already activated
+        # must stay active when this context is left
+        self._added = [c for c in self.callbacks if c not in Callback.active]
         Callback.active.update(self.callbacks)
 
     def __enter__(self):
         return
 
     def __exit__(self, type, value, traceback):
-        for c in self.callbacks:
+        for c in self._added:
             Callback.active.discard(c)
